@@ -74,6 +74,8 @@ type Options struct {
 	MaxGas int64
 	// SkipFirstBlock: leave the chain right after InitChain (no block 1 commit).
 	SkipFirstBlock bool
+	// UnbondingTime of the staking module (default 3 days).
+	UnbondingTime time.Duration
 	// CommunityTax (default 0 so the community pool has no other inflow).
 	CommunityTax *sdk.Dec
 }
@@ -208,6 +210,9 @@ func New(o Options) *World {
 	sp := stakingtypes.DefaultParams()
 	sp.BondDenom = Denom
 	sp.UnbondingTime = 3 * 24 * time.Hour
+	if o.UnbondingTime > 0 {
+		sp.UnbondingTime = o.UnbondingTime
+	}
 	gs[stakingtypes.ModuleName] = cdc.MustMarshalJSON(stakingtypes.NewGenesisState(sp, validators, delegations))
 	bonded := sdk.NewCoin(Denom, o.ValTokens.MulRaw(int64(o.NumVals)))
 	balances = append(balances, banktypes.Balance{
